@@ -241,20 +241,29 @@ def real_period(tok):
     return periods.period(tok)
 
 
-def to_array(vt, values, enums):
+def to_array(vt, values, enums, form=0):
+    """the argument handed to set_input; `form` varies the container: 0 an array of the variable's
+    own dtype, 1 an array of a wider / other dtype, 2 a plain Python list"""
     import numpy
     if vt == "float":
-        return numpy.array([float(Fraction(v)) for v in values], dtype=numpy.float32)
+        fl = [float(Fraction(v)) for v in values]
+        return [numpy.array(fl, dtype=numpy.float32), numpy.array(fl, dtype=numpy.float64), fl][form % 3]
     if vt == "int":
-        return numpy.array([int(v) for v in values], dtype=numpy.int32)
+        il = [int(v) for v in values]
+        return [numpy.array(il, dtype=numpy.int32), numpy.array(il, dtype=numpy.int64), il][form % 3]
     if vt == "bool":
-        return numpy.array([bool(v) for v in values], dtype=bool)
+        bl = [bool(v) for v in values]
+        return [numpy.array(bl, dtype=bool), numpy.array(bl, dtype=bool), bl][form % 3]
     if vt in ("str", "ascii"):
-        return numpy.array(list(values), dtype=object)
+        return [numpy.array(list(values), dtype=object), numpy.array(list(values)), list(values)][form % 3]
     if vt == "date":
-        return numpy.array(list(values), dtype="datetime64[D]")
+        return [numpy.array(list(values), dtype="datetime64[D]"), numpy.array(list(values), dtype="datetime64[D]"),
+                [dt.date.fromisoformat(v) for v in values]][form % 3]
     if vt.startswith("enum:"):
-        return list(values)                       # names, encoded by the holder
+        cls = enums[vt[5:]]
+        names = list(values)
+        idx = [[m.name for m in cls].index(n) for n in names]
+        return [names, numpy.array(idx, dtype=numpy.int64), cls.encode(numpy.array(names))][form % 3]
     raise ValueError(vt)
 
 
@@ -326,12 +335,16 @@ class Run:
             vt = self.info["inputs"][var][0]
             count = sim.populations[self.info["inputs"][var][3]].count
             try:
-                sim.set_input(var, real_period(per), to_array(vt, gen_values(vt, count, vseed, self.info), self.info["enums"]))
+                sim.set_input(var, real_period(per), to_array(vt, gen_values(vt, count, vseed, self.info),
+                                                              self.info["enums"], form=vseed // 7))
             except Exception as e:   # refused inputs leave the state alone; the state is what is dumped
                 self.errors.append(("input", var, per, type(e).__name__))
         for kind, var, per in sc.get("requests", []):
             try:
-                getattr(sim, kind)(var, real_period(per))
+                if per is None:
+                    getattr(sim, kind)(var)
+                else:
+                    getattr(sim, kind)(var, real_period(per))
             except Exception as e:
                 self.errors.append((kind, var, per, type(e).__name__))
         for poke in sc.get("pokes", []):
@@ -537,13 +550,20 @@ def known_arrays(sim):
     return out
 
 
-def canonical_tokens(sim, dump_dir) -> list:
+def canonical_tokens(sim, listing) -> list:
     """the tokens the model driver prints for `restore sys (dump s)` (without the `C|` flags)"""
     toks = ["OK"] + [pop_tok(pop) for pop in sim.populations.values()]
     arr = set()
     for (name, p), a in known_arrays(sim).items():
         arr.add("|".join(["A", name, period_tok(p), "none" if a is None else vec_tok(a)]))
     toks += sorted(arr)
+    toks.append(listing)
+    return toks
+
+
+def dir_listing(dump_dir) -> str:
+    """`F|` + the sorted relative paths of a dump directory (an empty directory ends with `/`)"""
+    dump_dir = str(dump_dir)
     paths = set()
     for root, dirs, files in os.walk(dump_dir):
         rel = os.path.relpath(root, dump_dir)
@@ -553,5 +573,26 @@ def canonical_tokens(sim, dump_dir) -> list:
         if rel and not files and not dirs:
             paths.add(rel)
     paths.add("__entities__/")
-    toks.append("F|" + ";".join(sorted(paths)))
-    return toks
+    return "F|" + ";".join(sorted(paths))
+
+
+_RESTORE_TBS: dict = {}
+
+
+def restore_system(sid: int, kind: str):
+    """the system handed to restore_simulation: the very object, a clone, or a reform that changes nothing"""
+    tbs, _info = get_system(sid)
+    if kind == "same":
+        return tbs
+    if (sid, kind) not in _RESTORE_TBS:
+        if kind == "clone":
+            _RESTORE_TBS[(sid, kind)] = tbs.clone()
+        else:
+            from openfisca_core.reforms import Reform
+
+            class nothing(Reform):
+                def apply(self):
+                    pass
+
+            _RESTORE_TBS[(sid, kind)] = nothing(tbs)
+    return _RESTORE_TBS[(sid, kind)]
